@@ -48,7 +48,8 @@ CONFIG = {
 }
 
 SELKINDS = ["all", "all-explicit", "closed", "leaves", "middle", "arbitrary"]
-ALGS = [("none", 0), ("impk", 2), ("none", 0), ("imp", 1), ("impk", 5)]
+ALGS = [("none", 0), ("impk", 2), ("none", 0), ("imp", 1), ("impk", 5), ("none", 0)]
+NET_HI = [5]
 
 
 class Scen:
@@ -119,9 +120,9 @@ def make_scen(rng, selkind, alg, K, family=None, max_outcomes=96, conv=None, req
         conv = "scalar"
     for _ in range(500):
         if scalar_leaves:
-            net = G.random_net(rng, family, max_outcomes=max_outcomes, nested_p=0.0, flip_only=True)
+            net = G.random_net(rng, family, n_hi=NET_HI[0], max_outcomes=max_outcomes, nested_p=0.0, flip_only=True)
         else:
-            net = G.random_net(rng, family, max_outcomes=max_outcomes)
+            net = G.random_net(rng, family, n_hi=NET_HI[0], max_outcomes=max_outcomes)
         sel = choose_selection(rng, net, selkind)
         if not sel:
             continue
@@ -271,22 +272,23 @@ def exact_marginal_logp(sc, params, vals_sel):
 _PLANS = {}
 
 
-def _shuffled(name, seed, combos):
-    """Full factorial of the arms in a seed-dependent order: consecutive cells cover every combination."""
+def _stratified(name, seed, first, rest):
+    """Plan of arms: cell i gets first[i % len(first)] and the (i // len(first))-th element of a
+    seed-dependent shuffle of `rest` drawn separately for each value of the first arm."""
     key = (name, seed)
     if key not in _PLANS:
-        order = np.random.default_rng([977, seed, len(combos)]).permutation(len(combos))
-        _PLANS[key] = [combos[k] for k in order]
-    return _PLANS[key]
+        rng = np.random.default_rng([977, seed, len(first), len(rest)])
+        _PLANS[key] = [[rest[k] for k in rng.permutation(len(rest))] for _ in first]
+    per = _PLANS[key]
+    return lambda i: (first[i % len(first)], per[i % len(first)][(i // len(first)) % len(rest)])
 
 
 def exact_plan(ci, seed):
-    combos = [(s, a) for s in ["all", "closed", "all-explicit", "closed"] for a in ALGS]
-    selkind, (alg, K) = _shuffled("exact", seed, combos)[ci % len(combos)]
+    selkind, (alg, K) = _stratified("exact", seed, ["all", "closed", "all-explicit", "closed"], ALGS)(ci)
     if alg != "none" and selkind == "closed":
         # the algorithm proposes the unselected choices under its own target's placeholder values of
         # the selected ones, so exactness is only implied when everything is selected
-        selkind = "all" if ci % 2 else "all-explicit"
+        selkind = "all" if (ci // 4) % 2 else "all-explicit"
     return selkind, alg, K
 
 
@@ -371,8 +373,8 @@ def _two_stage(ctx, name, p1, stage2, sig, witness):
 
 
 def stat_plan(si, seed):
-    combos = [(m, s, a) for m in ["rw", "est", "rw"] for s in ["leaves", "arbitrary", "middle", "closed", "leaves", "all"] for a in ALGS]
-    mode, selkind, (alg, K) = _shuffled("stat", seed, combos)[si % len(combos)]
+    rest = [(s, a) for s in ["leaves", "arbitrary", "middle", "closed", "leaves", "all"] for a in ALGS]
+    mode, (selkind, (alg, K)) = _stratified("stat", seed, ["rw", "est", "rw"], rest)(si)
     return mode, selkind, alg, K
 
 
@@ -428,7 +430,9 @@ def stat_cell(ctx, si, N, reps):
     except Exception as e:  # noqa: BLE001
         report_raise(ctx, sc, "random_weighted" if mode == "rw" else "estimate_logpdf", e, params1)
         return
-    cond = f"{selkind}-selection,{_algname(sc)}"
+    # statistical signatures name the arm (with / without algorithm), not the selection shape: one
+    # mechanism, one signature
+    cond = _algname(sc)
     wit = _witness(sc, params1, 0, {"keys": N * reps})
     if mode == "est":
         s0 = {i: _as_idx(net, i, draw0[i]) for i in sc.sel}
@@ -441,11 +445,19 @@ def stat_cell(ctx, si, N, reps):
         def p_est(outs):
             e = np.concatenate([np.exp(np.asarray(o["est"], dtype=np.float64)).reshape(-1) for o in outs])
             n = e.shape[0]
-            return R.z_pvalue(float(np.mean(e)), truth, float(np.std(e, ddof=1)) / math.sqrt(n))
+            m = float(np.mean(e))
+            cv2 = float(np.var(e, ddof=1)) / (m * m) if m > 0 else float("inf")
+            if n / (1.0 + cv2) < 400.0:  # heavy-tailed estimator: the normal approximation is not trusted
+                return None
+            return R.z_pvalue(m, truth, float(np.std(e, ddof=1)) / math.sqrt(n))
 
+        p1 = p_est(first)
+        if p1 is None:
+            ctx.count("est_mean_low_effective_sample_size_skipped")
+            return
         ctx.count("est_mean_tests")
         ctx.evaluation(fingerprint=("est", selkind, alg, K, net.sig(), tuple(sc.sel)), nontrivial=True, n=N * reps)
-        _two_stage(ctx, "estimate-mean", p_est(first), lambda: p_est(draw(8 * reps)),
+        _two_stage(ctx, "estimate-mean", p1, lambda: (lambda q: 1.0 if q is None else q)(p_est(draw(8 * reps))),
                    f"C25|op=estimate_logpdf|on=Marginal|field=density-mean|cond={cond}",
                    dict(wit, sample={str(i): s0[i][0].tolist() for i in sc.sel}, exact_density=truth))
         return
@@ -481,6 +493,8 @@ def stat_cell(ctx, si, N, reps):
             var = max(ysq[s] / n - m * m, 0.0) * n / (n - 1)
             if counts[s] == 0:
                 out.append(R.z_pvalue(0.0, 1.0, math.sqrt((1 - ps[s]) / ps[s] / n)))
+            elif ysum[s] ** 2 / ysq[s] < 100.0:
+                continue  # effective number of terms too small for a normal approximation
             else:
                 out.append(R.z_pvalue(m, 1.0, math.sqrt(var / n)))
         return min(1.0, min(out) * len(out)) if out else 1.0
@@ -490,7 +504,7 @@ def stat_cell(ctx, si, N, reps):
         return
     ctx.count("rw_sample_distribution_tests")
     ctx.count("rw_reciprocal_mean_tests")
-    ctx.count(f"rw_reciprocal_mean_tests[{cond}]")
+    ctx.count(f"rw_reciprocal_mean_tests[{selkind}-selection,{cond}]")
     ctx.evaluation(fingerprint=("rw", selkind, alg, K, net.sig(), tuple(sc.sel)), nontrivial=True, n=N * reps)
     wit2 = dict(wit, exact_marginal=ps.tolist())
     _two_stage(ctx, "sample-distribution", p_freq(first), lambda: p_freq(draw(8 * reps)),
@@ -505,10 +519,11 @@ def stat_cell(ctx, si, N, reps):
 def run(ctx):
     common.import_repo()
     R.selftest()
-    budget = ctx.pick(70.0, 780.0)
-    n_ex = ctx.pick(48, 480)
-    n_st = ctx.pick(48, 320)
-    B = ctx.pick(64, 128)
+    NET_HI[0] = ctx.pick(4, 5)
+    budget = ctx.pick(70.0, 600.0)
+    n_ex = ctx.pick(64, 480)
+    n_st = ctx.pick(64, 400)
+    B = ctx.pick(192, 256)
     N = 2048
     reps = ctx.pick(1, 4)
     ex = list(ctx.my_share(n_ex))
